@@ -54,6 +54,8 @@ func propC10(c *Ctx, r *Report) {
 	c.runParserLoops(r, "abort.parser-loop")
 	r.floor("parser.open-loops", 10)
 	r.floor("abort.functions", 3000)
+	r.Clauses = append(r.Clauses, "discarded ok (E85): a pointer- or interface-typed `v, _ := x.(T)` is followed by a nil test of v before any other use (expected count on the pinned tree: 0; positive control: seed C10-g)")
+	c.runDiscardOk(r, "abort.discardok", func(string) bool { return true })
 	r.Clauses = append(r.Clauses, staleHandlesClause+" - a stale handle indexes past the end of the compacted arena (panic on var<private> v: S = S(vec2(1, 2), 3))")
 	c.runStaleHandles(r, "phase.stalehandles", "wgsl/internal/lower", nil)
 	r.floor("phase.renumberingTails", 1)
